@@ -291,8 +291,27 @@ func (sc *Scenario) env() envs.Environment {
 	for i, l := range sc.Allowed {
 		al[i] = i18n.Language(langCodes[l])
 	}
-	return envs.NewBuilder().WithAllowedLanguages(al...).WithDefaultCountry(i18n.Country(sc.Country)).
-		WithDateFormat(envs.DateFormat(sc.DateFormat)).Build()
+	b := envs.NewBuilder().WithAllowedLanguages(al...).WithDefaultCountry(i18n.Country(sc.Country)).
+		WithDateFormat(envs.DateFormat(sc.DateFormat))
+	env := b.Build()
+	col, given, _ := sc.collation()
+	if !given {
+		return env
+	}
+	// the way a host hands an environment over: as JSON through envs.ReadEnvironment ...
+	if ej, err := jsonx.Marshal(env); err == nil {
+		var m map[string]any
+		if json.Unmarshal(ej, &m) == nil {
+			m["input_collation"] = col
+			if mj, err := json.Marshal(m); err == nil {
+				if read, err := envs.ReadEnvironment(mj); err == nil {
+					return read
+				}
+			}
+		}
+	}
+	// ... and when the reader rejects the value, the way a host builds one in Go
+	return b.WithInputCollation(envs.Collation(col)).Build()
 }
 
 // ---------------------------------------------------------------------------------------------------------
